@@ -230,6 +230,25 @@ def t_comp_operand(xs):
     return [0] + [chk(x) for x in xs if x != 1]
 
 
+def _evens(xs, k):
+    for x in xs:
+        y = x - k
+        yield y * 2
+
+
+def _bad(a, k):
+    return a < 0 or a > k
+
+
+def t_helper(xs):
+    out = []
+    for v in _evens(xs, 3):
+        if _bad(v, 4):
+            continue
+        out.append(chk(v - 1))
+    return out
+
+
 RT = dict(expr=[("chk($x)", "(chk {x})", "bind"), ("$e.v", "{e}"), ("len($l)", "(Int.ofNat (List.length {l}))"),
                 ("[$b] + $ys", "([{b}] ++ {ys})")],
           stmt=[("$l.append($v)", "l", "({l} ++ [{v}])")], exc=[("Bad($v)", "{v}")],
@@ -242,7 +261,9 @@ T_CASES = [(t_try_loop, "(xs : List Int) : Except Int (List Int)", {"xs": "xs"})
            (t_uncaught, "(a k : Int) : Except Int (List Int)", {"a": "a", "k": "k"}),
            # Translator2TN: comprehensions with a raising element are normalised to the append-loop
            (t_comp, "(xs : List Int) : Except Int (List Int)", {"xs": "xs"}),
-           (t_comp_operand, "(xs : List Int) : Except Int (List Int)", {"xs": "xs"})]
+           (t_comp_operand, "(xs : List Int) : Except Int (List Int)", {"xs": "xs"}),
+           # Translator2TH: a generator helper and an expression helper of the same module are inlined
+           (t_helper, "(xs : List Int) : Except Int (List Int)", {"xs": "xs"})]
 
 
 def main_t():
@@ -253,7 +274,7 @@ def main_t():
     expect = []
     for style in (False, True):
         for fn, sig, args in T_CASES:
-            tr = P.Translator2TN(P.Rules2T(fn_style=style, **RT))
+            tr = P.Translator2TH(P.Rules2T(fn_style=style, **RT))
             name = fn.__name__ + ("_fn" if style else "")
             text.append("def %s %s :=\n%s\n" % (name, sig, tr.function(fn, args)))
             ps = list(inspect.signature(fn).parameters)
